@@ -96,6 +96,7 @@ func runC02(c *Ctx) {
 			}()
 		}
 		var obs Term
+		os.WriteFile("inflight.txt", []byte(Render(L(S("parsedata"), S(string(data))))), 0o644)
 		t0 := time.Now()
 		func() {
 			defer func() {
@@ -215,6 +216,71 @@ func runC02(c *Ctx) {
 		}
 		parseCase("legacy-maps", []byte(doc), "stream:legacy-maps")
 	}
+	// 6. labels the decoder drops (a key with neither a string, a number nor a unit: what the encoder
+	// writes for a numeric label 0 without unit), on samples that keep no other label, with the key as
+	// the last entry of the string table: whatever the decoder leaves behind on such a sample must not
+	// break the next Write/Copy/Compact of the parsed profile
+	for i := 0; i < c.Budget(60, 2000); i++ {
+		p := &profile.Profile{SampleType: []*profile.ValueType{{Type: "samples", Unit: "count"}}}
+		if r.Bool() {
+			p.SampleType = append(p.SampleType, &profile.ValueType{Type: "cpu", Unit: "ns"})
+		}
+		for k := r.Intn(3); k >= 0; k-- {
+			sm := &profile.Sample{Value: make([]int64, len(p.SampleType))}
+			for j := range sm.Value {
+				sm.Value[j] = int64(r.Intn(5))
+			}
+			sm.NumLabel = map[string][]int64{}
+			for j := r.Intn(3); j >= 0; j-- {
+				vals := []int64{0}
+				if r.P(1, 4) {
+					vals = append(vals, int64(r.Intn(2)))
+				}
+				sm.NumLabel[fmt.Sprintf("zkey%d_%d", k, j)] = vals
+			}
+			if r.P(1, 4) {
+				sm.Label = map[string][]string{"s": {"v"}}
+			}
+			p.Sample = append(p.Sample, sm)
+		}
+		if b, pan := c01Serialize(p); !pan {
+			parseCase("dropped-labels", b, "stream:dropped-labels")
+		}
+	}
+	// 7. legacy text documents whose numbers are extreme (counts, totals, rates, periods, thread ids,
+	// addresses around 2^31..2^64): the header and record numbers are untrusted text
+	tmpl := []string{
+		"heap profile: #: # [ #: #] @ heap_v2/#\n#: # [ #: #] @ 0x400100 0x400200\n",
+		"heap profile: #: # [ #: #] @ heapprofile\n#: # [ #: #] @ 0x400100\n",
+		"heap profile: #: # [ #: #] @ growthz\n#: # [ #: #] @ 0x400100\n",
+		"heap profile: #: # [ #: #] @ heap/#\n#: # [ #: #] @ ~ 0x400200\n",
+		"goroutine profile: total #\n# @ 0x400100 0x400200\n# @ ~\n",
+		"threadcreate profile: total #\n# @ 0x400100\n",
+		"--- threadz # ---\n\n--- Thread 7f0 (name: a/#) stack: ---\n  0x400100 0x400200\n",
+		"--- contentionz # ---\ncycles/second = #\nsampling period = #\nms since reset = #\n# # @ 0x400100 0x400200\n",
+		"--- heapz # ---\n#: # [ #: #] @ 0x400100\n",
+	}
+	extreme := []string{"0", "2147483648", "4294967296", "35184372088832", "1152921504606846976", "4611686018427387904",
+		"9223372036854775807", "9223372036854775808", "18446744073709551615", "18446744073709551616", "-1", "99999999999999999999"}
+	for i := 0; i < c.Budget(200, 6000); i++ {
+		t := tmpl[r.Intn(len(tmpl))]
+		doc := ""
+		for _, ch := range t {
+			switch {
+			case ch != '#':
+				doc += string(ch)
+			case r.P(1, 3):
+				doc += extreme[r.Intn(len(extreme))]
+			default:
+				doc += fmt.Sprint(1 + r.Intn(100))
+			}
+		}
+		if r.Bool() {
+			doc += "\nMAPPED_LIBRARIES:\n00400000-00500000 r-xp 00000000 fd:01 1234 /bin/app\n"
+		}
+		parseCase("legacy-extreme", []byte(doc), "stream:legacy-extreme")
+	}
+	os.Remove("inflight.txt")
 	c.Extra["slow_parses"] = slow
 	c.Extra["inputs"] = total
 }
